@@ -18,12 +18,14 @@ One output line per input line.
                             (each entry starts with `<theorem>: <row name> :: `)
   rows_c01d               → falsifying rows of the wrapper-delegation theorems
                             (`<theorem>: <row> … @ file:line`), or `none`
+  rows_c13api             → culprits of `vec_api_covered`: uncovered fns / bad entries / stale entries, or `none`
   selfcheck               → 1 iff every generated key is the key of its string
 -/
 import HipVerif.Model.AutoTraitRows
 import HipVerif.Model.PubFns
 import HipVerif.Model.Doors
 import HipVerif.Model.Delegates
+import HipVerif.Model.VecApi
 
 open HipVerif.Model.AutoTrait
 open HipVerif.Model.PubFns
@@ -200,6 +202,11 @@ def answer (line : String) : String :=
   | ["rows_c17"] => join rowsC17
   | ["rows_c06"] => join rowsC06
   | ["rows_c01d"] => join rowsC01d
+  | ["rows_c13api"] =>
+    join ((HipVerif.Model.VecApi.uncoveredFns.map fun n => s!"vec_api_covered: uncovered fn {n}") ++
+      (HipVerif.Model.VecApi.badEntries.map fun k => s!"vec_api_covered: bad entry key {k}") ++
+      (HipVerif.Model.VecApi.staleEntries.map fun k => s!"vec_api_covered: stale entry key {k}") ++
+      (if HipVerif.Model.VecApi.opsAgree then [] else ["vec_api_covered: model op vocabulary ≠ vecdrive op vocabulary"]))
   | ["sites"] => join (HipVerif.Gen.PubFns.sites.map showSite)
   | ["unsafe_rows"] =>
     join ((HipVerif.Gen.PubFns.pubFns.filter mustBeUnsafe).map
